@@ -28,6 +28,7 @@ import (
 	"context"
 	"encoding/json"
 	"fmt"
+	iofs "io/fs"
 	"sort"
 	"strings"
 	"testing"
@@ -146,6 +147,10 @@ type Case struct {
 	// Proc: the node processor registered on every engine of the case (see proc_test.go);
 	// "" = none.
 	Proc string `json:"proc,omitempty"`
+	// Store: how the files are presented to every engine of the case (see store_test.go):
+	// "" = the filesystem itself, "overlay-mixed" = Open-only upper layer over a lower layer
+	// (with Stat) that holds older versions of the same files.
+	Store string `json:"store,omitempty"`
 }
 
 type memfsFS = memfs.FS
@@ -164,6 +169,8 @@ type stats struct {
 	opKinds            map[string]bool
 	modelMismatch      string
 	modelMismatchCount int
+	overlapped         int // renders that overlapped an armed edit (not compared)
+	firedDuring        int // armed edits that fired while the engine was loading the file
 	staleRegion        int // asserted renders where a file came back with the mtime of an older state the engine must have dropped
 }
 
@@ -200,7 +207,7 @@ func doRender(entry, target string, d int, root vuego.Template, vue *vuego.Vue) 
 	return buf.String(), err
 }
 
-func describeFiles(fs *memfs.FS, st map[string]*fstate) string {
+func describeFiles(fs *memfs.FS, m *model) string {
 	var sb strings.Builder
 	files := fs.Files()
 	names := make([]string, 0, len(files))
@@ -209,7 +216,14 @@ func describeFiles(fs *memfs.FS, st map[string]*fstate) string {
 	}
 	sort.Strings(names)
 	for _, n := range names {
-		fmt.Fprintf(&sb, "\n    %s (mtime %d): %q", n, st[n].mt, files[n])
+		extra := ""
+		if m.st[n].blocked {
+			extra = ", unreadable: permission error"
+		}
+		fmt.Fprintf(&sb, "\n    %s (mtime %d%s): %q", n, m.st[n].mt, extra, files[n])
+	}
+	if m.store == storeOverlayMixed {
+		sb.WriteString("\n    (these are the Open-only upper layer of an overlay; the lower layer holds variant 2 of page, component and main layout with mtime 50)")
 	}
 	return sb.String()
 }
@@ -217,130 +231,167 @@ func describeFiles(fs *memfs.FS, st map[string]*fstate) string {
 // execute runs the history and returns the first violation (nil if none) and statistics.
 func execute(c Case) (error, stats) {
 	s := stats{entries: map[string]bool{}, opKinds: map[string]bool{}}
-	m, err := newModel(c.Init)
+	m, err := newModel(c)
 	if err != nil {
 		return err, s
+	}
+	if !validProc(c.Proc) {
+		return fmt.Errorf("harness: unknown processor %q", c.Proc), s
 	}
 	fs := memfs.New()
 	for f, v := range c.Init {
 		fs.Write(f, variants[f][v].Content, time.Unix(t0, 0))
 	}
+	lower := newLower()
+	hook := &hookFS{m: fs}
 	// The long-lived engines.
-	if !validProc(c.Proc) {
-		return fmt.Errorf("harness: unknown processor %q", c.Proc), s
-	}
-	root := newRoot(fs, c.Proc)
-	vue := newVue(fs, c.Proc)
+	long := mount(c.Store, hook, lower)
+	root := newRoot(long, c.Proc)
+	vue := newVue(long, c.Proc)
 	failedBefore := false
 
 	for i, op := range c.Ops {
 		m.step = i
-		switch {
-		case op.isWrite():
-			vr, err := getVariant(op.File, op.V)
+		if op.Op != "render" {
+			labels, err := m.apply(i, op)
 			if err != nil {
 				return err, s
 			}
-			kind, mtClass := m.write(op.File, op.V, op.Dt)
-			s.opKinds["op:"+kind+":"+op.File] = true
-			s.opKinds[mtClass] = true
-			fs.Write(op.File, vr.Content, time.Unix(m.st[op.File].mt, 0))
-		case op.Op == "delete":
-			if m.st[op.File] == nil {
-				return fmt.Errorf("harness: unknown file %q", op.File), s
+			for _, l := range labels {
+				s.opKinds[l] = true
 			}
-			s.opKinds["op:delete:"+op.File] = true
-			m.remove(op.File)
-			fs.Remove(op.File)
-		case op.Op == "render":
-			target := op.Target
-			if target == "" {
-				target = fPage
+			switch {
+			case op.isWrite():
+				fs.Write(op.File, variants[op.File][op.V].Content, time.Unix(m.st[op.File].mt, 0))
+			case op.Op == "delete":
+				fs.Remove(op.File)
+			case op.Op == "block":
+				// a failure that is NOT "file does not exist"
+				fs.FailOpen(op.File, iofs.ErrPermission)
+			case op.Op == "unblock":
+				fs.FailOpen(op.File, nil)
 			}
-			if m.st[target] == nil {
-				return fmt.Errorf("harness: unknown render target %q", target), s
-			}
-			s.renders++
-			s.entries["entry:"+op.Entry] = true
-			if op.D == 3 || op.D == 4 {
-				s.entries["data:nil-or-empty:"+op.Entry] = true
-			}
-			if v, ok := m.cur(target); ok && strings.Contains(v.Content, "<template :") {
-				s.entries["page-rewrites-front-matter-key"] = true
-			}
-			ri := m.preRender(op.Entry, target)
-			if ri.rer {
-				s.rer = true
-			}
+			continue
+		}
+		target := op.Target
+		if target == "" {
+			target = fPage
+		}
+		if m.st[target] == nil {
+			return fmt.Errorf("harness: unknown render target %q", target), s
+		}
+		s.renders++
+		s.entries["entry:"+op.Entry] = true
+		if op.D == 3 || op.D == 4 {
+			s.entries["data:nil-or-empty:"+op.Entry] = true
+		}
+		if v, ok := m.cur(target); ok && strings.Contains(v.Content, "<template :") {
+			s.entries["page-rewrites-front-matter-key"] = true
+		}
+		ri := m.preRender(op.Entry, target)
+		if ri.rer {
+			s.rer = true
+		}
 
-			fs.ResetCounters()
-			got, gotErr := doRender(op.Entry, target, op.D, root, vue)
-			opens := fs.Opens(target)
+		// Armed edits of dependencies fire right after the engine opened the file, or, if the
+		// engine does not open it during this render, right after the render.
+		armed := m.armedDeps(ri.deps)
+		pres := map[string]preState{}
+		fire := func(f string) {
+			pres[f] = m.fire(f)
+			fs.Write(f, variants[f][m.st[f].v].Content, time.Unix(m.st[f].mt, 0))
+		}
+		if len(armed) > 0 {
+			hook.onOpen = func(name string) {
+				for _, f := range armed {
+					if _, still := m.armed[f]; still && f == name {
+						fire(f)
+						s.firedDuring++
+					}
+				}
+			}
+		}
 
-			snap := fs.Snapshot()
-			var want string
-			var wantErr error
-			if viewIndex(op.Entry) == 1 {
-				want, wantErr = doRender(op.Entry, target, op.D, nil, newVue(snap, c.Proc))
+		fs.ResetCounters()
+		got, gotErr := doRender(op.Entry, target, op.D, root, vue)
+		opens := fs.Opens(target)
+		hook.onOpen = nil
+		longFailed := gotErr != nil
+
+		if len(armed) > 0 {
+			for _, f := range armed {
+				if _, still := m.armed[f]; still {
+					fire(f)
+				}
+			}
+			// This render overlapped an edit: what it shows (old, new or a mix) is not
+			// compared. Every later render is.
+			m.postRenderOverlapped(op.Entry, target, ri, pres)
+			s.overlapped++
+			failedBefore = failedBefore || longFailed
+			continue
+		}
+
+		snap := mount(c.Store, fs.Snapshot(), lower)
+		var want string
+		var wantErr error
+		if viewIndex(op.Entry) == 1 {
+			want, wantErr = doRender(op.Entry, target, op.D, nil, newVue(snap, c.Proc))
+		} else {
+			want, wantErr = doRender(op.Entry, target, op.D, newRoot(snap, c.Proc), nil)
+		}
+		modelOK := m.expectOK(op.Entry, target)
+		// (a processor that removes text can remove the failing expression: not counted)
+		if (wantErr == nil) != modelOK && c.Proc != procRemove && c.Proc != procAll {
+			s.modelMismatchCount++
+			if s.modelMismatch == "" {
+				s.modelMismatch = fmt.Sprintf("step %d %s(%s): fresh engine err=%v but the harness model expected ok=%v", i, op.Entry, target, wantErr, modelOK)
+			}
+		}
+		// "succeeded" for the model only when the fresh engine and the model agree on it
+		// (the conservative choice: fewer resets of what the engine may hold, more skips)
+		m.postRender(op.Entry, target, ri, wantErr == nil && modelOK)
+
+		if ri.ambiguous != "" {
+			if ri.viaSame {
+				s.skipSame++
 			} else {
-				want, wantErr = doRender(op.Entry, target, op.D, newRoot(snap, c.Proc), nil)
-			}
-			modelOK := m.expectOK(op.Entry, target)
-			// (a processor that removes text can remove the failing expression: not counted)
-			if (wantErr == nil) != modelOK && c.Proc != procRemove && c.Proc != procAll {
-				s.modelMismatchCount++
-				if s.modelMismatch == "" {
-					s.modelMismatch = fmt.Sprintf("step %d %s(%s): fresh engine err=%v but the harness model expected ok=%v", i, op.Entry, target, wantErr, modelOK)
-				}
-			}
-			// "succeeded" for the model only when the fresh engine and the model agree on it
-			// (the conservative choice: fewer resets of what the engine may hold, more skips)
-			m.postRender(op.Entry, target, ri, wantErr == nil && modelOK)
-
-			longFailed := gotErr != nil
-			if ri.ambiguous != "" {
-				if ri.viaSame {
-					s.skipSame++
-				} else {
-					s.skipABA++
-				}
-				failedBefore = failedBefore || longFailed
-				continue
-			}
-			s.asserted++
-			if ri.stale != "" {
-				s.staleRegion++
-			}
-			if failedBefore {
-				s.afterFailed++
+				s.skipABA++
 			}
 			failedBefore = failedBefore || longFailed
-			where := fmt.Sprintf("step %d: %s(%s)", i, op.Entry, target)
-			if (gotErr == nil) != (wantErr == nil) {
-				return fmt.Errorf("%s: long-lived engine err=%v, engine created now err=%v\n  long-lived output: %q\n  fresh output: %q\n  files now:%s",
-					where, gotErr, wantErr, got, want, describeFiles(fs, m.st)), s
+			continue
+		}
+		s.asserted++
+		if ri.stale != "" {
+			s.staleRegion++
+		}
+		if failedBefore {
+			s.afterFailed++
+		}
+		failedBefore = failedBefore || longFailed
+		where := fmt.Sprintf("step %d: %s(%s)", i, op.Entry, target)
+		if (gotErr == nil) != (wantErr == nil) {
+			return fmt.Errorf("%s: long-lived engine err=%v, engine created now err=%v\n  long-lived output: %q\n  fresh output: %q\n  files now:%s",
+				where, gotErr, wantErr, got, want, describeFiles(fs, m)), s
+		}
+		if gotErr != nil {
+			s.errBoth++
+			continue // both fail: texts and partial output are unspecified
+		}
+		s.okBoth++
+		if op.Entry == eVueRender && opens == 0 {
+			s.cacheHits++
+		}
+		if got != want {
+			a, err1 := hx.Doc(got, hx.Collapse)
+			b, err2 := hx.Doc(want, hx.Collapse)
+			if err1 != nil || err2 != nil {
+				return fmt.Errorf("%s: outputs differ and cannot be parsed (%v, %v): %q vs %q", where, err1, err2, got, want), s
 			}
-			if gotErr != nil {
-				s.errBoth++
-				continue // both fail: texts and partial output are unspecified
+			if d := hx.Diff(a, b, hx.Options{}); d != "" {
+				return fmt.Errorf("%s: long-lived engine renders something else than an engine created now: %s\n  long-lived: %q\n  fresh:      %q\n  files now:%s",
+					where, d, got, want, describeFiles(fs, m)), s
 			}
-			s.okBoth++
-			if op.Entry == eVueRender && opens == 0 {
-				s.cacheHits++
-			}
-			if got != want {
-				a, err1 := hx.Doc(got, hx.Collapse)
-				b, err2 := hx.Doc(want, hx.Collapse)
-				if err1 != nil || err2 != nil {
-					return fmt.Errorf("%s: outputs differ and cannot be parsed (%v, %v): %q vs %q", where, err1, err2, got, want), s
-				}
-				if d := hx.Diff(a, b, hx.Options{}); d != "" {
-					return fmt.Errorf("%s: long-lived engine renders something else than an engine created now: %s\n  long-lived: %q\n  fresh:      %q\n  files now:%s",
-						where, d, got, want, describeFiles(fs, m.st)), s
-				}
-			}
-		default:
-			return fmt.Errorf("harness: unknown op %q", op.Op), s
 		}
 	}
 	return nil, s
@@ -409,6 +460,14 @@ func classify(c Case) (bool, []string) {
 	if s.staleRegion > 0 {
 		cls = append(cls, "asserted:old-mtime-back-after-engine-saw-other-state")
 	}
+	if c.Store == "" {
+		cls = append(cls, "store:plain")
+	} else {
+		cls = append(cls, "store:"+c.Store)
+	}
+	if s.overlapped > 0 {
+		cls = append(cls, "has-edit-overlapping-a-load")
+	}
 	if c.Proc == procNone {
 		cls = append(cls, "proc:none")
 	} else {
@@ -435,6 +494,8 @@ func classify(c Case) (bool, []string) {
 		rec.Count("steps:render-skipped-same-mtime-edit", s.skipSame)
 		rec.Count("steps:render-skipped-mtime-returned", s.skipABA)
 		rec.Count("steps:render-answered-from-cache", s.cacheHits)
+		rec.Count("steps:render-overlapped-by-edit(not compared)", s.overlapped)
+		rec.Count("steps:edit-fired-right-after-the-engine-opened-the-file", s.firedDuring)
 		rec.Count("steps:asserted-after-failed-render", s.afterFailed)
 		rec.Count("steps:asserted-old-mtime-back-after-engine-saw-other-state", s.staleRegion)
 		if s.modelMismatchCount > 0 {
@@ -493,20 +554,36 @@ var alphabet = []letter{
 	{op: "invalid", file: fMain, dt: 1, bad: true},
 }
 
+// alphabetFS adds the filesystem events: an edit that overlaps the next load of the file, and a
+// file that becomes unreadable (with an error other than "not exist") and readable again.
+var alphabetFS = append(append([]letter(nil), alphabet...),
+	letter{op: "arm", file: fPage, dt: 1},
+	letter{op: "arm", file: fMain, dt: 1},
+	letter{op: "block", file: fPage},
+	letter{op: "unblock", file: fPage},
+	letter{op: "block", file: fMain},
+	letter{op: "unblock", file: fMain},
+)
+
 // the two alternating valid contents per file used by the enumeration
 var enumPair = map[string][2]int{fPage: {8, 9}, fComp: {1, 0}, fMain: {1, 0}, fBase: {0, 1}}
 var enumBad = map[string]int{fPage: 5, fComp: 3, fMain: 3, fBase: 2}
 
-func buildHistory(init map[string]int, word []int, proc string) Case {
-	c := Case{Init: init, Proc: proc}
+func buildHistory(alpha []letter, init map[string]int, word []int, proc, store string) Case {
+	c := Case{Init: init, Proc: proc, Store: store}
 	writes := map[string]int{}
 	exists := map[string]bool{}
 	for f := range init {
 		exists[f] = true
 	}
 	for _, li := range word {
-		l := alphabet[li]
+		l := alpha[li]
 		switch l.op {
+		case "block", "unblock":
+			c.Ops = append(c.Ops, Op{Op: l.op, File: l.file})
+		case "arm":
+			c.Ops = append(c.Ops, Op{Op: "arm", File: l.file, V: enumPair[l.file][writes[l.file]%2], Dt: l.dt})
+			writes[l.file]++
 		case "render":
 			c.Ops = append(c.Ops, Op{Op: "render", Entry: l.entry, D: enumData[len(c.Ops)%len(enumData)]})
 		case "delete":
@@ -529,9 +606,9 @@ func buildHistory(init map[string]int, word []int, proc string) Case {
 	return c
 }
 
-// enumerate runs every history of length <= maxLen[i] for initial configuration i, for each
-// of the given processors.
-func enumerate(t *testing.T, kind string, maxLen []int, procs []string) {
+// enumerate runs every history over alpha of length <= maxLen[i] for initial configuration i,
+// for each of the given processors and stores.
+func enumerate(t *testing.T, kind string, alpha []letter, maxLen []int, procs, stores []string) {
 	shard, shards := run.Shard()
 	inits := []map[string]int{
 		{fPage: 9, fComp: 0, fMain: 0},           // page names layout main, no default layout
@@ -548,25 +625,27 @@ func enumerate(t *testing.T, kind string, maxLen []int, procs []string) {
 	var word []int
 	var rec2 func() bool
 	rec2 = func() bool {
-		if len(word) > 0 && alphabet[word[len(word)-1]].op == "render" {
+		if len(word) > 0 && alpha[word[len(word)-1]].op == "render" {
 			// a history that does not end in a render is covered by its longest prefix that does
 			for ii, init := range inits {
 				if len(word) > maxLen[ii] {
 					continue
 				}
 				for _, proc := range procs {
-					n++
-					if n%shards != shard {
-						continue
-					}
-					c := buildHistory(init, word, proc)
-					if _, ids := sanitize(c, avoid); len(ids) > 0 {
-						rec.Excluded(ids[0])
-						continue
-					}
-					nt, cls := classify(c)
-					if !run.Each(rec, kind, c, nt, append(cls, kind), check) {
-						return false
+					for _, store := range stores {
+						n++
+						if n%shards != shard {
+							continue
+						}
+						c := buildHistory(alpha, init, word, proc, store)
+						if _, ids := sanitize(c, avoid); len(ids) > 0 {
+							rec.Excluded(ids[0])
+							continue
+						}
+						nt, cls := classify(c)
+						if !run.Each(rec, kind, c, nt, append(cls, kind), check) {
+							return false
+						}
 					}
 				}
 			}
@@ -574,7 +653,7 @@ func enumerate(t *testing.T, kind string, maxLen []int, procs []string) {
 		if len(word) == top {
 			return true
 		}
-		for i := range alphabet {
+		for i := range alpha {
 			word = append(word, i)
 			ok := rec2()
 			word = word[:len(word)-1]
@@ -586,7 +665,7 @@ func enumerate(t *testing.T, kind string, maxLen []int, procs []string) {
 	}
 	complete = rec2()
 	if complete {
-		rec.Exhaustive(fmt.Sprintf("processors %q: all histories over the %d-letter alphabet that end in a render: length 1..%d from configuration A (page names layout main, no default layout), length 1..%d from configuration B (page without layout, default layout present, main chains to base) (%d histories)", procs, len(alphabet), maxLen[0], maxLen[1], n))
+		rec.Exhaustive(fmt.Sprintf("%s: processors %q, stores %q: all histories over the %d-letter alphabet that end in a render: length 1..%d from configuration A (page names layout main, no default layout), length 1..%d from configuration B (page without layout, default layout present, main chains to base) (%d histories)", kind, procs, stores, len(alpha), maxLen[0], maxLen[1], n))
 	}
 }
 
@@ -597,6 +676,10 @@ func genCase(t *rapid.T) Case {
 	if rapid.Bool().Draw(t, "with-processor") {
 		c.Proc = rapid.SampledFrom(allProcs[1:]).Draw(t, "processor")
 	}
+	if rapid.IntRange(0, 3).Draw(t, "store") == 0 {
+		c.Store = storeOverlayMixed
+	}
+	blocked := map[string]bool{}
 	cur := map[string]int{fPage: -1, fComp: -1, fMain: -1, fBase: -1} // -1 = absent
 	pick := func(label string, xs []int) int { return rapid.SampledFrom(xs).Draw(t, label) }
 	c.Init[fPage] = pick("init-page", []int{1, 8, 0, 9, 2, 3, 4, 7})
@@ -611,14 +694,15 @@ func genCase(t *rapid.T) Case {
 	n := rapid.IntRange(5, 15).Draw(t, "len")
 	// weighted choices (SampledFrom is uniform over the slice)
 	kinds := []string{"render", "render", "render", "render", "render", "render", "render-twice", "render-twice", "render-twice",
-		"edit", "edit", "edit", "edit", "edit", "edit", "edit", "edit", "edit", "invalid", "invalid", "delete", "delete"}
+		"edit", "edit", "edit", "edit", "edit", "edit", "edit", "edit", "edit", "invalid", "invalid", "delete", "delete",
+		"arm", "arm", "block", "unblock"}
 	fileW := []string{fPage, fPage, fPage, fPage, fComp, fComp, fMain, fMain, fBase}
 	dts := []int{1, 1, 1, 2, 0, 0, -1, -1, -2}
 	entriesW := []string{eVueRender, eVueRender, eVueRender, eVueRender, eLoadRender, eLoadRender, eRenderFile, eVueFrag}
 	broken := func() []string {
 		var out []string
 		for _, f := range []string{fPage, fComp, fMain} { // base may legitimately be absent
-			if cur[f] < 0 || !variants[f][cur[f]].LoadOK || !variants[f][cur[f]].RenderOK {
+			if blocked[f] || cur[f] < 0 || !variants[f][cur[f]].LoadOK || !variants[f][cur[f]].RenderOK {
 				out = append(out, f)
 			}
 		}
@@ -657,6 +741,11 @@ func genCase(t *rapid.T) Case {
 			if b := broken(); len(b) > 0 && rapid.IntRange(0, 3).Draw(t, "repair") > 0 {
 				f = rapid.SampledFrom(b).Draw(t, "broken")
 			}
+			if blocked[f] { // repairing an unreadable file = making it readable again
+				blocked[f] = false
+				c.Ops = append(c.Ops, Op{Op: "unblock", File: f})
+				continue
+			}
 			name := "edit"
 			if cur[f] < 0 {
 				name = "recreate"
@@ -671,6 +760,25 @@ func genCase(t *rapid.T) Case {
 			}
 			cur[f] = v
 			c.Ops = append(c.Ops, Op{Op: name, File: f, V: v, Dt: rapid.SampledFrom(dts).Draw(t, "dt")})
+		case "arm":
+			// an edit that is applied right after the engine has been handed the file's content
+			// during the next render that depends on the file
+			f := rapid.SampledFrom(fileW).Draw(t, "file")
+			v := pick("v", variantsWhere(f, true))
+			c.Ops = append(c.Ops, Op{Op: "arm", File: f, V: v, Dt: rapid.SampledFrom([]int{1, 1, 2, -1}).Draw(t, "dt")})
+		case "block":
+			f := rapid.SampledFrom(fileW).Draw(t, "file")
+			blocked[f] = true
+			c.Ops = append(c.Ops, Op{Op: "block", File: f})
+		case "unblock":
+			f := rapid.SampledFrom(fileW).Draw(t, "file")
+			for _, g := range allFiles {
+				if blocked[g] {
+					f = g
+				}
+			}
+			blocked[f] = false
+			c.Ops = append(c.Ops, Op{Op: "unblock", File: f})
 		case "invalid":
 			f := rapid.SampledFrom(fileW).Draw(t, "file")
 			v := pick("v", variantsWhere(f, false))
@@ -713,9 +821,13 @@ func TestProp(t *testing.T) {
 	defer run.Finish(t, rec)
 	run.Witnesses(rec, prop, replay)
 
-	enumerate(t, "enum", run.Pick([]int{4, 3}, []int{5, 5}), []string{procNone})
+	plain := []string{""}
+	enumerate(t, "enum", alphabet, run.Pick([]int{4, 3}, []int{5, 5}), []string{procNone}, plain)
 	// the same with a registered node processor that edits its nodes in place
-	enumerate(t, "enum-proc", run.Pick([]int{3, 2}, []int{4, 3}), allProcs[1:])
+	enumerate(t, "enum-proc", alphabet, run.Pick([]int{3, 2}, []int{4, 3}), allProcs[1:], plain)
+	// with filesystem events (edit overlapping a load, file unreadable / readable again), on the
+	// plain filesystem and on the mixed-capability overlay
+	enumerate(t, "enum-fs", alphabetFS, run.Pick([]int{3, 2}, []int{4, 3}), []string{procNone}, []string{"", storeOverlayMixed})
 	run.Rapid(t, rec, "history", genCase, classify, check)
 }
 
